@@ -226,7 +226,9 @@ func c02UnaryMagnitudes(c *core.Ctx) {
 					if math.IsInf(e, 0) || math.IsNaN(e) || (e != 0 && math.Abs(e) < 1e-290) {
 						continue
 					}
-					if d := math.Abs(got.V[i] - e); d > 1e-6*math.Abs(e)+1e-300 || math.IsNaN(d) {
+					// (absolute floor 1e-12*|upstream|: rules that reuse the rounded forward result, such as
+					// 1 - tanh(x)^2 for cosh(x)^-2, are as good as the closed form up to that - DESIGN 3.7)
+					if d := math.Abs(got.V[i] - e); d > 1e-6*math.Abs(e)+1e-12*math.Abs(qv[1].V[i])+1e-300 || math.IsNaN(d) {
 						return core.Fail("%s at x = %v with upstream %v: gradient %v, expected %v (relative error %.2g)", op, x.V[i], qv[1].V[i], got.V[i], e, d/math.Abs(e))
 					}
 				}
